@@ -129,10 +129,13 @@ theorem deleted_before_accept_still_returned (t : STyp) (p : Persp) (n : Int) (h
 example : acceptedIds ((Incoming.new .bidi 3 .server).run
     [.getOrOpen 4, .delete 0, .accCall 1, .accLocked 1, .accCall 2, .accLocked 2]).2 = [0, 4] := by decide
 
-/-- Observation (DESIGN §7 C15; the property does not speak about concurrent acceptors): with two
-    concurrent `AcceptStream` callers and two streams opened by one frame, the single-slot
-    `newStreamChan` wakes only one of them; the second stays asleep although its stream is in the map,
-    until the next stream is opened.  This is why the correspondence uses one acceptor per type. -/
+/-- Observation (DESIGN §7 C15): at the granularity of the model (`newStreamChan` as a one-slot buffer,
+    `GetOrOpenStream` as one atomic step) two concurrent `AcceptStream` callers and two streams opened by
+    one frame can leave the second caller asleep although its stream is in the map, until the next
+    stream is opened — this is the schedule in which the second non-blocking send finds the slot still
+    full.  The Go runtime hands a send directly to a *parked* receiver, so at quiescent points the
+    correspondence observes both callers waking; the oracle accepts either schedule, and the monitors
+    judge the union of what all acceptors return. -/
 theorem observation_two_acceptors_single_slot :
     let m := ((Incoming.new .bidi 5 .server).run
       [.accCall 1, .accLocked 1, .accCall 2, .accLocked 2, .getOrOpen 4, .accRecv 1, .accLocked 1]).1
